@@ -84,6 +84,52 @@ CLAIMED.update({
    "computed with unicode.ToLower in traces; title-case letters and invalid UTF-8 are not generated."),
 })
 
+_env_note = ("Symbolic cryptography: unforgeability of the real signature schemes is assumed; the adversary model is the listed action "
+             "set. Trusts TLC, the class->bytes concretization in the harness (hand-built envelopes with real signatures) and "
+             "go-ipld-prime's codecs for building the artefacts.")
+CLAIMED.update({
+ "C06": ("model_checking",
+   "TLA+ spec Envelope.tla (symbolic signatures; honest seal then adversary actions; decode pipeline in code order) model-checked with "
+   "TLC for Unforgeable / NoForgeryOfHonest; every behaviour replayed on real bytes through every decoder; every single-bit / single-byte "
+   "corruption of sealed tokens recorded and validated by TraceEnvelope.tla",
+   "TLC explores every sequence of up to 2 adversary actions plus a closing re-signature (field rewrites per value class, issuer swap, "
+   "re-signing with the adversary's key of the same or another algorithm, header / tag / extra-entry / outer-shape / signature edits) "
+   "after an honest seal of a delegation and an invocation, and checks that the code-shaped decode pipeline accepts only genuinely "
+   "signed, faithfully decoded content. Each behaviour is materialized as a hand-built envelope with real signatures and given to all "
+   "generic and typed decoders (DAG-CBOR, DAG-JSON, readers, FromIPLD); a returned token must be one its issuer signed, field by field. "
+   "Thorough additionally flips every bit and inserts/deletes/substitutes/truncates at every offset of 10 sealed tokens.",
+   _env_note),
+ "C10": ("model_checking",
+   "TLA+ specs Envelope.tla (OnlyWellFormed over payload field classes, tags, entry shapes, decoder types) and Token.tla "
+   "(ConstructorsWellFormed, AddOutcome) model-checked with TLC; behaviours replayed on real decoders and constructors; Go numeric "
+   "values at their boundaries recorded and validated by TraceToken.tla",
+   "TLC checks that only well-formed payloads of the requested type pass the decode pipeline for every field x class (absent, null, "
+   "wrong kind, invalid syntax, short/empty nonce, 2^53, -2^53, 2^64-5, unknown field) x tag x extra entry x decoder, correctly "
+   "re-signed by the adversary, and that constructors only return tokens with defined required principals and a nonce >= 12 bytes for "
+   "every option subset and special class; all cases run on the real code, and every Go numeric type at its type and safe-integer "
+   "boundaries (plain, in slices, in maps) is pushed through args.Add / meta.Add / literal.Any / WithArgument and must be stored "
+   "exactly or rejected.",
+   _env_note),
+ "C07": ("model_checking",
+   "TLA+ spec Token.tla (construct -> seal -> unseal -> compare over option sets x value classes x algorithm x codec x decoder) "
+   "model-checked with TLC; every case replayed with real keys of all six generatable algorithms, both codecs and both decoders",
+   "TLC enumerates every subset of options of both token types combined with one special value class (13 argument/metadata value "
+   "classes, extreme time bounds, nonce lengths, undefined principals) and 2 of 24 (quick) or all 24 (thorough) combinations of key "
+   "algorithm, codec and decoder; each case is built with the real constructors, sealed with a real key, unsealed with the generic and "
+   "the typed decoder and compared field by field at whole-second resolution.",
+   "Value classes are sampled by a few concrete values each (seed-dependent), not all values; NaN/Inf excluded by the statement. Two "
+   "known findings are reported as KNOWN-FINDING lines (integral floats through DAG-JSON, top-level null values)."),
+ "C16": ("model_checking",
+   "TLA+ spec Did.tla (Parse / PubKey / FromPubKey machine over algorithms x key-material encodings x prefix x multibase x multicodec "
+   "variants) model-checked with TLC; every case materialized with real keys and real alternative encodings; the four laws checked on "
+   "real values; random identifier strings validated by TraceDid.tla",
+   "TLC checks RoundTrip, OnePrincipalOneDid, Rejects and Total on the abstract machine for 6 algorithms x 10 encodings (canonical, "
+   "uncompressed, hybrid, padded, non-minimal DER, PKIX-wrapped, short, long, off-curve, garbage) x 4 prefixes x 4 multibases x 5 "
+   "multicodec variants; every case becomes a real identifier string built from real keys, and the laws are evaluated on what "
+   "did.Parse / PubKey / FromPubKey really return, plus DID equality vs key equality over all key pairs.",
+   "Which alternative encodings an unmarshaller accepts is a transcribed table (drift only); the verdict comes from the laws on real values."),
+})
+
 NOT_YET = "check not built yet in this session (work in progress; see DESIGN.md section 3 for the planned model)"
 
 checks, na = [], []
